@@ -1,4 +1,5 @@
 """C06 — a crop attached to a Runner, Harvester or Sampler reaps what a direct run gives."""
+import copy
 import os, json, itertools, random
 import common, fns, sweeps, crops, labelled
 from common import quiet, canon
@@ -72,8 +73,8 @@ def _mk_farmer(xyz, c, f, data, tag=''):
     sw = crops.sorted_sweep(c['sweep'])
     runner = xyz.Runner(f, var_names=desc['names'], fn_args=sweeps.fn_args(sw),
                         var_dims={n: tuple(d) for n, d in zip(desc['names'], desc['dims']) if d} or None,
-                        var_coords=desc['var_coords'] or None, constants=desc['constants'] or None,
-                        resources=desc['resources'] or None, attrs=desc['attrs'] or None)
+                        var_coords=copy.deepcopy(desc['var_coords']) or None, constants=copy.deepcopy(desc['constants']) or None,
+                        resources=copy.deepcopy(desc['resources']) or None, attrs=copy.deepcopy(desc['attrs']) or None)
     if c['farmer'] == 'runner': return runner, runner
     if c['farmer'] == 'harvester':
         return xyz.Harvester(runner, data_name=data, engine=c['engine']), runner
